@@ -43,6 +43,20 @@ class Body:
         self.locals = mir["locals"]
         self.argc = mir["argc"]
         self.n = len(self.blocks)
+        # locals assigned exactly once, with a scalar literal: `_x = const false; switchInt(move _x)`
+        cnt, val = {}, {}
+        for b in self.blocks:
+            for st in b["s"]:
+                if st["k"] == "assign" and not st["pl"]["p"]:
+                    l = st["pl"]["l"]
+                    cnt[l] = cnt.get(l, 0) + 1
+                    rv = st["rv"]
+                    if rv["k"] == "use" and rv["a"].get("k") == "const" and "v" in rv["a"] and "def" not in rv["a"]:
+                        val[l] = int(rv["a"]["v"])
+            t = b["t"]
+            if t["k"] == "call" and t.get("dest") and not t["dest"]["p"]:
+                cnt[t["dest"]["l"]] = cnt.get(t["dest"]["l"], 0) + 2
+        self._const_locals = {l: v for l, v in val.items() if cnt.get(l) == 1 and l > mir["argc"]}
         self._succ = [self._succs(b) for b in self.blocks]
         self._pred = [[] for _ in range(self.n)]
         for i, ss in enumerate(self._succ):
@@ -55,13 +69,25 @@ class Body:
         self._prov_memo = {}
 
     # --- cfg
-    @staticmethod
-    def _succs(b):
+    def _succs(self, b):
         t = b["t"]
         k = t["k"]
         if k == "goto":
             return [t["t"]]
         if k == "switch":
+            d = t["d"]
+            lit = None
+            if d.get("k") == "const" and "v" in d:
+                lit = int(d["v"])
+            elif d.get("k") in ("copy", "move") and not d["pl"]["p"] and d["pl"]["l"] in self._const_locals:
+                lit = self._const_locals[d["pl"]["l"]]
+            if lit is not None:
+                # switch on a literal: only the matching edge is feasible
+                v = lit
+                for val, bb in t["ts"]:
+                    if int(val) == v:
+                        return [bb]
+                return [t["o"]]
             out = []
             for _, bb in t["ts"]:
                 if bb not in out:
@@ -331,10 +357,13 @@ def is_transparent(name):
 class Prov:
     """Flow-insensitive backward def-use slicing to symbolic terms."""
 
-    def __init__(self, body, depth=40):
+    def __init__(self, body, depth=40, site_tag=None):
         self.b = body
         self.depth = depth
         self.memo = {}
+        # site_tag: regex; calls to matching callees get their block index appended to the term
+        # (distinguishes successive reads from one stream, which are otherwise identical terms)
+        self.site_tag = re.compile(site_tag) if site_tag else None
 
     # terms are tuples
     def operand(self, op, strip=True):
@@ -534,7 +563,15 @@ class Prov:
             if d is not None and not d["p"]:
                 tag = "%s#%d" % (self.b.local_name(d["l"]) or "", d["l"])
             return ("call", name, args, t.get("self_ty"), tag)
+        if self.site_tag is not None and self.site_tag.search(name):
+            return ("call", name, args, t.get("self_ty"), None, self._site_of(t))
         return ("call", name, args, t.get("self_ty"))
+
+    def _site_of(self, t):
+        for bi in range(self.b.n):
+            if self.b.blocks[bi]["t"] is t:
+                return bi
+        return None
 
     def _rvalue(self, rv, strip):
         k = rv["k"]
